@@ -425,6 +425,8 @@ def insert_ghosts(text, ghosts, what, base_line=None, repo_file=None):
                 kind, k = at.split(':')
                 heads = loop_heads(text)
                 k = int(k)
+                if (k < 1 or k > len(heads)) and g.get('optional'):
+                    continue
                 if k < 1 or k > len(heads):
                     raise ExtractionBroken('%s: ghost position %s but body has %d loops' % (what, at, len(heads)))
                 b, e = loop_body_span(text, heads[k - 1])
@@ -433,9 +435,12 @@ def insert_ghosts(text, ghosts, what, base_line=None, repo_file=None):
             continue
         rx = g.get('after') or g.get('before')
         ms = list(re.finditer(rx, text))
-        want = int(g.get('count', 1))
         if not ms and g.get('optional'):
             continue
+        if g.get('count') == '1+' and ms:
+            want = len(ms)
+        else:
+            want = int(g.get('count', 1))
         if len(ms) != want:
             raise ExtractionBroken('%s: ghost anchor %r matched %d times (need %d)' % (what, rx, len(ms), want))
         for m in ms:
